@@ -76,6 +76,7 @@ fn real_main(args: &[String]) -> i32 {
         }
         Some("worker") => match args.get(2).map(String::as_str) {
             Some("c02") => vharness::props::c02::worker_main(args.get(3).map(String::as_str).unwrap_or("")),
+            Some("c12") => vharness::props::c12::worker_main(),
             _ => usage(),
         },
         Some("crash-driver") => vharness::props::c06::driver_main(&args[2..]),
